@@ -71,7 +71,7 @@ def _cost(rng):
     elif r < 0.6:
         comps.append(rng.choice(CURRENCIES))
     elif r < 0.8:
-        comps.append(f'{_num(rng)} # {_num(rng)} {rng.choice(CURRENCIES)}')
+        comps.append(f'{_num(rng)}{rng.choice([" ", " ", ""])}#{rng.choice([" ", " ", ""])}{_num(rng)} {rng.choice(CURRENCIES)}')
     else:
         comps.append(f'# {_num(rng)} {rng.choice(CURRENCIES)}')
     if rng.random() < 0.3:
@@ -86,7 +86,7 @@ def _cost(rng):
 
 
 def _posting(rng, indent, nl, meta_indent):
-    flag = rng.choice(['', '', '', '! ', '* '])
+    flag = rng.choice(['', '', '', '! ', '* ', '!', '*  '])      # incl. a flag glued to the account
     parts = [f'{indent}{flag}{rng.choice(ACCOUNTS)}']
     r = rng.random()
     if r < 0.75:
